@@ -82,6 +82,14 @@ fn flow_special(which_full: &str, seed: u64) -> Result<Outputs, String> {
             let powers = kzg_powers(&pp, kl, 4);
             let vk = kzg_vk(&pp);
             let p = UP::<Fr381>::from_coefficients_slice(&r[..kl]);
+            {
+                let sp = sparse_poly::<Fr381>(seed, kl - 1);
+                let (c, st) = Kzg::commit(&powers, &sp, None, None).map_err(|e| format!("{:?}", e))?;
+                let pf = Kzg::open(&powers, &sp, r[40], &st).map_err(|e| format!("{:?}", e))?;
+                out.push(("commitment/sparse".into(), ser(&c)));
+                out.push(("proof/sparse".into(), ser(&pf)));
+                out.push(("decision/sparse".into(), kzg_check(&vk, &c, r[40], sp.evaluate(&r[40]), &pf).class().as_bytes().to_vec()));
+            }
             for h in [None, Some(2usize)] {
                 let mut rng = seed_rng(seed, 0);
                 let (c, st) = Kzg::commit(&powers, &p, h, Some(&mut rng as &mut dyn RngCore)).map_err(|e| format!("{:?}", e))?;
@@ -136,6 +144,16 @@ fn flow_special(which_full: &str, seed: u64) -> Result<Outputs, String> {
 }
 
 /// Every flow at two sizes: the round one and (suffix `-odd`) one with odd / non-power-of-two lengths.
+/// a*x^(d/2) + b*x^(d-2) + c*x^d : low-order zeros, interior zeros.
+fn sparse_poly<F: ark_ff::PrimeField>(seed: u64, d: usize) -> UP<F> {
+    let r = rho_stream::<F>(seed, 12, 3);
+    let mut c = vec![F::zero(); d + 1];
+    c[d / 2] = r[0];
+    c[d - 2] = r[1];
+    c[d] = r[2];
+    UP::<F>::from_coefficients_vec(c)
+}
+
 pub const ITEMS: [&str; 22] = [
     "MAR", "SON", "IPA", "PST", "HYR", "LIG", "MLL", "BRK", "KZG", "MLP", "STR", "MAR-odd", "SON-odd", "IPA-odd", "PST-odd", "HYR-odd", "LIG-odd", "MLL-odd", "BRK-odd", "KZG-odd", "MLP-odd",
     "STR-odd",
@@ -151,9 +169,11 @@ pub fn run_item(item: &str, seed: u64) -> Result<Outputs, String> {
         "LIG" => flow::<SLig>(&KeyCfg::uni(64, 64, 1, None), seed, Some(UP::<Fr381>::from_coefficients_vec(rho_stream::<Fr381>(seed, 9, 41)))),
         "MLL" => flow::<SMll>(&KeyCfg::ml(6), seed, None),
         "BRK" => flow::<SBrk>(&KeyCfg::ml(6), seed, None),
-        "MAR-odd" => flow::<SMar>(&KeyCfg::uni(13, 11, 3, Some(vec![5, 11])), seed, None),
-        "SON-odd" => flow::<SSon>(&KeyCfg::uni(13, 11, 3, Some(vec![5, 11])), seed, None),
-        "IPA-odd" => flow::<SIpa>(&KeyCfg::uni(7, 5, 1, None), seed, None),
+        // the odd-size flows of the univariate schemes open a sparse polynomial (zero low-order
+        // coefficients and zeros between the non-zero ones) in first position
+        "MAR-odd" => flow::<SMar>(&KeyCfg::uni(13, 11, 3, Some(vec![5, 11])), seed, Some(sparse_poly::<Fr381>(seed, 11))),
+        "SON-odd" => flow::<SSon>(&KeyCfg::uni(13, 11, 3, Some(vec![5, 11])), seed, Some(sparse_poly::<Fr381>(seed, 11))),
+        "IPA-odd" => flow::<SIpa>(&KeyCfg::uni(7, 5, 1, None), seed, Some(sparse_poly::<FrJ>(seed, 7))),
         "PST-odd" => flow::<SPst>(&KeyCfg::mv(2, 5, 5), seed, None),
         "HYR-odd" => flow::<SHyr>(&KeyCfg::ml(4), seed, None),
         "LIG-odd" => flow::<SLig>(&KeyCfg::uni(37, 37, 1, None), seed, Some(UP::<Fr381>::from_coefficients_vec(rho_stream::<Fr381>(seed, 9, 23)))),
